@@ -103,3 +103,77 @@ pub fn string_literals(tokens: &str) -> Vec<String> {
 pub fn parses_as_items(tokens: &str) -> bool {
     syn::parse_str::<syn::File>(tokens).is_ok()
 }
+
+/// from_repr_inner converts a string through proc_macro::TokenStream (the compiler's own API,
+/// unavailable outside a real macro expansion), so FromRepr cannot run in-process; it is covered
+/// by the rustc layers only.
+pub const NOT_IN_PROCESS: [&str; 1] = ["FromRepr"];
+
+/// C20 oracle for one (case, derive) cell: Some((kind, expected, actual)) on a violation.
+pub fn judge(c: &vmodel::malformed::Case, dname: &str) -> (Outcome, Option<(String, String, String)>) {
+    let src = c.source.replace("ITEM", "Item");
+    let out = expand(dname, &src);
+    let required = c.must_reject.iter().any(|x| x == dname);
+    let must_accept = c.must_accept.iter().any(|x| x == dname);
+    let v = match &out {
+        Outcome::Panic(p) => Some((format!("macro-panic:{}", dname), "Ok or Err, never a panic".to_string(), format!("panicked: {}", p))),
+        Outcome::NotAnItem(e) => {
+            if required || must_accept {
+                Some(("harness:case-does-not-parse".to_string(), "a DeriveInput".to_string(), e.clone()))
+            } else {
+                None
+            }
+        }
+        Outcome::Ok(tokens) => {
+            if required {
+                Some((format!("silently-accepted:{}:{}", c.rule, dname), "a compile error".to_string(), "an implementation was generated".to_string()))
+            } else if must_accept && !parses_as_items(tokens) {
+                Some((format!("expansion-not-items:{}", dname), "tokens that parse as items".to_string(), tokens.chars().take(300).collect()))
+            } else {
+                None
+            }
+        }
+        Outcome::Err(msg, _) => {
+            if must_accept {
+                Some((format!("valid-input-rejected:{}", dname), "Ok".to_string(), msg.clone()))
+            } else {
+                None
+            }
+        }
+    };
+    (out, v)
+}
+
+/// token-level mutations of an item: only "never panics" is demanded of the result
+pub fn mutate(rg: &mut vmodel::gen::Rg, src: &str) -> String {
+    let toks: Vec<&str> = src.split_inclusive(|c: char| c == ' ' || c == ',' || c == '(' || c == ')' || c == '=' || c == '\n').collect();
+    let mut t: Vec<String> = toks.iter().map(|s| s.to_string()).collect();
+    let frag = [
+        "disabled", "default", "transparent", "serialize = \"x\"", "to_string = \"{0}\"", "props(a = 1.0)", "props(a = 'c')", "default_with = \"a::b\"",
+        "#[strum(default)]", "#[strum(disabled, disabled)]", "1.5", "'x'", "\"{\"", "= ", "(", ")", ",", "<'a>", "r#type", "#[repr(u8)]", "= 7", "\"\"",
+        "#[strum_discriminants(name(r#X))]", "ascii_case_insensitive = false", "serialize_all = \"Snake\"", "message", "use_phf",
+    ];
+    for _ in 0..rg.range(1, 3) {
+        if t.is_empty() {
+            break;
+        }
+        let p = rg.below(t.len());
+        match rg.below(4) {
+            0 => {
+                t.remove(p);
+            }
+            1 => {
+                let x = t[p].clone();
+                t.insert(p, x);
+            }
+            2 => {
+                t.insert(p, format!("{} ", rg.pick(&frag)));
+            }
+            _ => {
+                let q = rg.below(t.len());
+                t.swap(p, q);
+            }
+        }
+    }
+    t.concat()
+}
